@@ -88,8 +88,95 @@ func hashKindArchives(g *Gen, o *Out) {
 	}
 }
 
+// inspectAgrees: the property stated on the implementation alone — Inspect(true) succeeds iff the
+// hash-verifying block reader ends cleanly, and then both report the same roots and block count.
+func inspectAgrees(input []byte, ro readOpts) string {
+	scanOK, nScan, rootsScan := false, 0, ""
+	if br, err := carv2.NewBlockReader(bytes.NewReader(input), ro.opts()...); err == nil {
+		rootsScan = cidsStr(br.Roots)
+		for {
+			_, err := br.Next()
+			if err == io.EOF {
+				scanOK = true
+				break
+			}
+			if err != nil {
+				break
+			}
+			nScan++
+		}
+	}
+	inspOK, nInsp, rootsInsp := false, 0, ""
+	if r, err := carv2.NewReader(bytes.NewReader(input), ro.opts()...); err == nil {
+		if st, err := r.Inspect(true); err == nil {
+			inspOK, nInsp, rootsInsp = true, int(st.BlockCount), cidsStr(st.Roots)
+		}
+	}
+	if scanOK != inspOK || (scanOK && (nScan != nInsp || rootsScan != rootsInsp)) {
+		return fmt.Sprintf("agree=0 _scan=%v/%d _inspect=%v/%d", scanOK, nScan, inspOK, nInsp)
+	}
+	return "agree=1"
+}
+
+// headerVariants: the CARv1 header of (roots, version 1) in encodings a lenient dag-cbor decoder accepts
+// although go-car would not write them: their length differs from the canonical re-encoding.
+func headerVariants(root cid.Cid) [][]byte {
+	rb := append([]byte{0xd8, 0x2a, 0x58, byte(len(root.Bytes()) + 1), 0x00}, root.Bytes()...)
+	key := func(k string) []byte { return append([]byte{0x60 + byte(len(k))}, k...) }
+	cat := func(parts ...[]byte) []byte {
+		var b []byte
+		for _, p := range parts {
+			b = append(b, p...)
+		}
+		return b
+	}
+	bodies := [][]byte{
+		cat([]byte{0xa2}, key("roots"), []byte{0x81}, rb, key("version"), []byte{0x01}),       // as written
+		cat([]byte{0xa2}, key("version"), []byte{0x01}, key("roots"), []byte{0x81}, rb),       // keys reordered
+		cat([]byte{0xa2}, key("roots"), []byte{0x81}, rb, key("version"), []byte{0x18, 0x01}), // version in two bytes
+		cat([]byte{0xa2}, key("roots"), []byte{0x9f}, rb, []byte{0xff}, key("version"), []byte{0x01}), // indefinite-length roots
+		cat([]byte{0xa1}, key("version"), []byte{0x01}),                                       // no roots key
+		cat([]byte{0xa2}, key("roots"), []byte{0x98, 0x01}, rb, key("version"), []byte{0x01}), // array length in two bytes
+		cat([]byte{0xbf}, key("roots"), []byte{0x81}, rb, key("version"), []byte{0x01}, []byte{0xff}), // indefinite-length map
+	}
+	var out [][]byte
+	for _, b := range bodies {
+		out = append(out, append(varintBytes(uint64(len(b))), b...))
+	}
+	return out
+}
+
+func varintBytes(x uint64) []byte {
+	var b []byte
+	for x >= 0x80 {
+		b = append(b, byte(x)|0x80)
+		x >>= 7
+	}
+	return append(b, byte(x))
+}
+
+// headerVariantCases: the same two sections under every header variant, as CARv1 and inside an index-less
+// CARv2 (padded and not).
+func headerVariantCases(g *Gen, o *Out) {
+	bs := []Blk{g.Block(), g.Block()}
+	o.HashBlocks(bs)
+	var secs []byte
+	for _, b := range bs {
+		secs = append(secs, sectionOf(b)...)
+	}
+	ro := defaultReadOpts()
+	for i, h := range headerVariants(bs[0].C) {
+		v1 := append(append([]byte{}, h...), secs...)
+		for _, in := range [][]byte{v1, indexlessV2(v1, 0), indexlessV2(v1, 9)} {
+			o.Line(fmt.Sprintf("inspagree %s in=%s", ro, hexOr(in)), inspectAgrees(in, ro))
+			o.Count(fmt.Sprintf("header-variant/%d", i))
+		}
+	}
+}
+
 func famC13(g *Gen, o *Out, n int, thorough bool) {
 	hashKindArchives(g, o)
+	headerVariantCases(g, o)
 	for c := 0; c < n; c++ {
 		maxB := 5
 		if thorough {
